@@ -1,6 +1,7 @@
 package wire
 
 import (
+	uuid "github.com/google/uuid"
 	"context"
 	"time"
 
@@ -590,5 +591,130 @@ func zzC06dAbandoned() {
 	vf.Settle()
 	vf.Assert("next-caller-gets-exactly-its-reply", doneB && errB == nil && gotB == message.Request(pong))
 	vf.Assert("lock-free", vf.Unlocked(&c.mu))
+	vf.Reach("end")
+}
+
+// C15.c: the ping interval and timeout announced in the connect request are the configured ones
+// (the defaults when unset), and the client's own keepalive runs on the same values.
+func zzC15cAnnounced() {
+	tr := ZZNewFakeTransport()
+	iv := vf.Dur("interval", 86400)
+	to := vf.Dur("timeout", 86400)
+	tr.OnWrite = func(m message.Message) error {
+		if r, ok := m.(*message.ConnectRequest); ok {
+			tr.In <- &message.ConnectResponse{RequestID: r.RequestID, ProtocolVersion: r.ProtocolVersion, ResultCode: message.ResultCodeSucceeded}
+		}
+		return nil
+	}
+	c, err := Connect(&ClientConnConfig{Transport: tr, ProtocolVersion: "2.0.0", NodeID: "node", PingInterval: iv, PingTimeout: to})
+	vf.Assert("connected", err == nil && c != nil)
+	if c == nil {
+		return
+	}
+	var cr *message.ConnectRequest
+	for _, m := range tr.Msgs() {
+		if r, ok := m.(*message.ConnectRequest); ok {
+			cr = r
+		}
+	}
+	vf.Assert("connect-request-sent", cr != nil)
+	if cr == nil {
+		return
+	}
+	wantIv, wantTo := iv, to
+	if iv == 0 {
+		wantIv = 10 * time.Second
+	}
+	if to == 0 {
+		wantTo = time.Second
+	}
+	vf.Assert("announced-interval-is-the-configured-one", cr.PingInterval == wantIv)
+	vf.Assert("announced-timeout-is-the-configured-one", cr.PingTimeout == wantTo)
+	vf.Assert("own-keepalive-uses-the-configured-values", c.pingInterval == wantIv && c.pingTimeout == wantTo)
+	vf.Reach("end")
+}
+
+// C12.w: a broker that answers a request id with a response of the wrong type must not crash the
+// client: every request sender returns its own response type or an error, never panics.
+func zzC12wWrongTypedResponse() {
+	tr := ZZNewFakeTransport()
+	c := ZZNewClientConn(tr, nil)
+	go c.readRequestLoop()
+	respKind := vf.Choose("response.type", 9)
+	mk := func(id message.RequestID) message.Request {
+		switch respKind {
+		case 0:
+			return &message.Pong{RequestID: id}
+		case 1:
+			return &message.UpstreamOpenResponse{RequestID: id, AssignedStreamID: uuid.UUID{1}, AssignedStreamIDAlias: 1}
+		case 2:
+			return &message.UpstreamResumeResponse{RequestID: id, AssignedStreamIDAlias: 1}
+		case 3:
+			return &message.UpstreamCloseResponse{RequestID: id}
+		case 4:
+			return &message.DownstreamOpenResponse{RequestID: id, AssignedStreamID: uuid.UUID{2}}
+		case 5:
+			return &message.DownstreamResumeResponse{RequestID: id}
+		case 6:
+			return &message.DownstreamCloseResponse{RequestID: id}
+		case 7:
+			return &message.UpstreamMetadataAck{RequestID: id}
+		}
+		return &message.UpstreamCloseResponse{RequestID: id, ResultCode: message.ResultCodeStreamNotFound}
+	}
+	tr.OnWrite = func(m message.Message) error {
+		if r, ok := m.(message.Request); ok {
+			c.msgRequestCh <- mk(message.RequestID(r.GetRequestID()))
+		}
+		return nil
+	}
+	ctx := context.Background()
+	reqKind := vf.Choose("request", 8)
+	var err error
+	var gotRight bool
+	panicked := vf.Panics(func() {
+		switch reqKind {
+		case 0:
+			var r *message.Pong
+			r, err = c.sendPing()
+			gotRight = r != nil
+		case 1:
+			var r *message.UpstreamOpenResponse
+			r, err = c.SendUpstreamOpenRequest(ctx, &message.UpstreamOpenRequest{SessionID: "s", QoS: message.QoSReliable})
+			gotRight = r != nil
+		case 2:
+			var r *message.UpstreamResumeResponse
+			r, err = c.SendUpstreamResumeRequest(ctx, &message.UpstreamResumeRequest{StreamID: uuid.UUID{1}}, message.QoSReliable)
+			gotRight = r != nil
+		case 3:
+			var r *message.UpstreamCloseResponse
+			r, err = c.SendUpstreamCloseRequest(ctx, &message.UpstreamCloseRequest{StreamID: uuid.UUID{1}})
+			gotRight = r != nil
+		case 4:
+			var r *message.DownstreamOpenResponse
+			r, err = c.SendDownstreamOpenRequest(ctx, &message.DownstreamOpenRequest{DesiredStreamIDAlias: 3, QoS: message.QoSReliable})
+			gotRight = r != nil
+		case 5:
+			var r *message.DownstreamResumeResponse
+			r, err = c.SendDownstreamResumeRequest(ctx, &message.DownstreamResumeRequest{StreamID: uuid.UUID{2}, DesiredStreamIDAlias: 3})
+			gotRight = r != nil
+		case 6:
+			var r *message.DownstreamCloseResponse
+			r, err = c.SendDownstreamCloseRequest(ctx, &message.DownstreamCloseRequest{StreamID: uuid.UUID{2}})
+			gotRight = r != nil
+		case 7:
+			var r *message.UpstreamMetadataAck
+			r, err = c.SendUpstreamMetadata(ctx, &message.UpstreamMetadata{Metadata: &message.BaseTime{Name: "n"}})
+			gotRight = r != nil
+		}
+	})
+	vf.Assert("wrong-typed-response-never-panics", !panicked)
+	right := reqKind == respKind || (reqKind == 3 && respKind == 8) // 8 is a second, negative, UpstreamCloseResponse
+	if right {
+		vf.Assert("right-typed-response-is-returned", err == nil && gotRight)
+	} else {
+		vf.Assert("wrong-typed-response-is-an-error", err != nil && !gotRight)
+	}
+	vf.Assert("locks-free", vf.Unlocked(&c.mu) && vf.RUnlocked(c.upstreams.mu) && vf.RUnlocked(c.downstreams.mu))
 	vf.Reach("end")
 }
